@@ -1,3 +1,4 @@
+import SdxModel.Sample
 import SdxModel
 /-!
 # `sdxdrv` — the executable model behind a line protocol
@@ -395,6 +396,23 @@ partial def loop (h : IO.FS.Stream) (out : IO.FS.Stream) (st : DState) : IO Unit
   | "micro" :: rest =>
       for l in handleMicro rest do out.putStrLn l
       out.putStrLn "END"
+      loop h out st
+  | "sample1" :: rest =>
+      -- sample1 <comb...> | <ncols> <convertor tokens...> | <harvest stream ints> | <microdata draws>
+      match st.forest with
+      | none => out.putStrLn "ERR no-forest"; out.putStrLn "END"
+      | some F =>
+          let parts := rest.splitOn "|"
+          let comb := (parts.getD 0 []).map String.toNat!
+          let convs : List (Conv Float) := (do let n ← nN; rep n pConv : P _).run' { toks := (parts.getD 1 []).toArray }
+          let hstream := (parts.getD 2 []).map String.toNat!
+          let mstream := (parts.getD 3 []).map pDraw
+          match materializeTree realEnv F convs comb hstream mstream with
+          | .error e => out.putStrLn ("ERR " ++ e)
+          | .ok (rows, drawn, left) =>
+              for r in rows do out.putStrLn (" ".intercalate (r.map sCell))
+              out.putStrLn s!"drawn {drawn} left {left}"
+          out.putStrLn "END"
       loop h out st
   | "analyze" :: col =>
       match st.forest with
